@@ -410,12 +410,16 @@ func MessageFromWireFormat(buf []byte) (Message, error) {
 type messageBuilder struct {
 	w         bytes.Buffer
 	nameCache map[string]int
+	// nameDepth is the number of compression pointers a reader follows when it
+	// starts reading at the offset stored in nameCache under the same key.
+	nameDepth map[string]int
 }
 
 // newMessageBuilder creates a new messageBuilder with an empty name cache.
 func newMessageBuilder() *messageBuilder {
 	return &messageBuilder{
 		nameCache: make(map[string]int),
+		nameDepth: make(map[string]int),
 	}
 }
 
@@ -430,13 +434,22 @@ func (builder *messageBuilder) WriteName(name Name) error {
 	// https://tools.ietf.org/html/rfc1035#section-3.1
 	for i := range name {
 		// Has this suffix already been encoded in the message?
-		if ptr, ok := builder.nameCache[name[i:].String()]; ok && ptr&0x3fff == ptr {
-			// If so, we can write a compression pointer.
+		key := name[i:].String()
+		if ptr, ok := builder.nameCache[key]; ok && ptr&0x3fff == ptr &&
+			builder.nameDepth[key] < compressionPointerLimit {
+			// If so, we can write a compression pointer (unless following
+			// it would take a reader past compressionPointerLimit). The
+			// labels written so far in this call are one pointer deeper
+			// than the target.
+			for j := 0; j < i; j++ {
+				builder.nameDepth[name[j:].String()] = builder.nameDepth[key] + 1
+			}
 			return binary.Write(&builder.w, binary.BigEndian, uint16(0xc000|ptr))
 		}
 		// Not cached; we must encode this label verbatim. Store a cache
 		// entry pointing to the beginning of it.
-		builder.nameCache[name[i:].String()] = builder.w.Len()
+		builder.nameCache[key] = builder.w.Len()
+		builder.nameDepth[key] = 0
 		length := len(name[i])
 		if length == 0 || length > 63 {
 			panic(length)
